@@ -37,15 +37,18 @@ CHECK_DEADLOCK FALSE
 
 def model_and_scenarios(ctx, invs=ALL_INVS, defects=()):
     """Exhaustive SearchFlow run (property-conforming switches), defect-switch runs, scenario dump."""
-    r = ctx.model_check("MCSearchFlow", flow_cfg(invs=invs), name="SearchFlow-exh", workers=12)
     for name, kw, expect in defects:
-        ctx.model_check("MCSearchFlow", flow_cfg(invs=invs, **kw), name="SearchFlow-defect-" + name, workers=12,
+        # the defective designs are refuted on the richest corpus alone (a third of the scenarios)
+        ctx.model_check("MCSearchFlow", flow_cfg(invs=invs, corpora='"mix"', **kw), name="SearchFlow-defect-" + name, workers=12,
                         expect_violation=expect)
+    # one exhaustive run both checks the invariants under the conforming switches and dumps the scenario list
     dump = os.path.join(ctx.work, "scenarios.ndjson")
-    r2 = ctx.tlc("MCSearchFlow", flow_cfg(invs=invs, extra="CONSTRAINT DumpS"), name="SearchFlow-dump", env={"DUMPFILE": dump},
-                 workers=1, timeout=900)
-    if r2["error"] or r2["violated"]:
-        raise Infra("scenario dump failed: %s %s" % (r2["error"], r2["violated"]))
+    r = ctx.tlc("MCSearchFlow", flow_cfg(invs=invs, extra="CONSTRAINT DumpS"), name="SearchFlow-exh+dump", env={"DUMPFILE": dump},
+                workers=1, timeout=1200)
+    if r["error"]:
+        raise Infra("SearchFlow exhaustive run failed: %s" % r["error"])
+    if r["violated"]:
+        raise Infra("SearchFlow violates %s under the conforming design switches:\n%s" % (r["violated"], r["out"][-2000:]))
     scen = []
     seen = set()
     for line in open(dump):
